@@ -50,7 +50,8 @@ def finish(prop, a, results, units, world, t0, seed, run_harness, extra=None):
         funcs.append({"function": r["unit"], "sha256_16": r.get("sha"), "paths": info.get("paths"),
                       "obligations": len(mine), "wall_s": r.get("wall_s"),
                       "callees_reachable_by_name(inlined unless stubbed by a contract)": [x for x in ex if x not in fbase][:40],
-                      "dropped_logger_statements": world.dropped_statements(ex) if ex else 0})
+                      "dropped_logger_statements": world.dropped_statements(ex) if ex else 0,
+                      "feasibility_checks_left_open_by_the_solver(path kept)": info.get("feas_unknown", 0)})
         for b in info.get("bounded", []):
             if prop in b.get("props", [prop]):
                 bounded.append(b)
